@@ -112,6 +112,20 @@ impl SipRewriter {
                 continue;
             }
 
+            // Skip rules with aggregates in the head. Semijoin reduction is only
+            // set-preserving: it folds non-core atoms such as `r(Y, _)` into helper
+            // rules that project the anonymous columns away, which changes the number
+            // of body valuations that count/sum/avg see.
+            if rule
+                .head
+                .args
+                .iter()
+                .any(|t| matches!(t, Term::Aggregate(_, _)))
+            {
+                new_rules.push(rule.clone());
+                continue;
+            }
+
             // Skip rules that are recursive (head relation appears in body)
             // or reference recursive relations  -  semijoin reduction can produce
             // empty intermediate results when the filtered relation is being
